@@ -327,6 +327,29 @@ class Tensor:
     def sum(self, axis=None):
         return reduce_sum(self, axis)
 
+    def prod(self, axis=None):
+        """product over an axis of CONCRETE extent (a symbolic-length product is outside the modelled subset)"""
+        if axis is None:
+            if self.ndim != 1:
+                raise Unsupported("prod() of a multi-dimensional array without axis")
+            axis = 0
+        if axis < 0:
+            axis += self.ndim
+        n = unwrap(self.shape[axis])
+        if not isinstance(n, int):
+            raise Unsupported("prod over an axis of symbolic extent")
+        fz = self.frozen()
+        shape = self.shape[:axis] + self.shape[axis + 1:]
+
+        def fn(*idx):
+            r = 1
+            for k in range(n):
+                r = S.mul(r, fz.at(*(idx[:axis] + (k,) + idx[axis:])))
+            return r
+        if not shape:
+            return fn()
+        return Tensor(shape, fn)
+
     def any(self):
         return self._quant("any")
 
